@@ -1,4 +1,5 @@
 import FP.Drv.Util
+import FP.Model.Literal
 import FP.Gen.Narrow
 import FP.Ref.IntKinds
 namespace FP.Drv.C15
@@ -10,6 +11,10 @@ def handle : List String → Option String
       match toIntegerOk (Ref.kindSigned frm) to v with
       | some b => pure (toString b)
       | none => pure "panic"
+  | ["unesc", h] => do
+      let bs ← unhexBytes h
+      let src ← String.fromUTF8? (ByteArray.mk bs.toArray)
+      pure (hexBytes (String.ofList (FP.Model.Literal.parseString src.toList)).toUTF8.toList)
   | _ => none
 
 def handleRef : List String → Option String
